@@ -48,7 +48,7 @@ theorem osu_calculator_literals_as_modelled : osuCalcLiterals = [
   ("calculate", ["0", "1.0", "0.02", "0.9", "0.0", "1.0", "0.85", "0.0", "1.0", "13.33", "1.8", "0.0", "1.0", "13.33", "5.0", "0.0", "1.0", "1.0", "1.1", "1.1", "1.1", "1.1", "1.0", "1.1"]),
   ("compute_aim_value", ["0.0", "0", "0.0", "0.0", "0.0", "1.0", "1.0", "3.0", "0.95", "0.4", "2000.0", "1.0", "2000.0", "2000.0", "0.5", "0.0", "0.0", "10.33", "0.3", "10.33", "8.0", "0.05", "8.0", "0.0", "1.0", "1.3", "0.0016", "1.0", "2.0", "16.0", "1.0", "0.003", "1.0", "0.04", "12.0", "0.98", "0.0", "2.0", "2500.0"]),
   ("compute_speed_value", ["0.0", "0.95", "0.4", "2000.0", "1.0", "2000.0", "2000.0", "0.5", "0.0", "0.0", "10.33", "0.3", "10.33", "0.0", "1.0", "1.12", "1.0", "0.04", "12.0", "0.0", "0.0", "0.0", "0.0", "0.0", "0.0", "0.0", "0.0", "6.0", "2.0", "6.0", "0.95", "0.0", "2.0", "750.0", "2.0", "14.5", "2.0"]),
-  ("compute_accuracy_value", ["0.0", "0", "0", "6", "2", "6", "0.0", "0.0", "0.0", "24.0", "2.83", "1000.0", "0.3", "1.15", "1.14", "1.08", "1.02"]),
+  ("compute_accuracy_value", ["0.0", "0", "0", "6", "2", "6", "0.0", "0.0", "0.0", "1.52163_f64", "24.0", "2.83", "1000.0", "0.3", "1.15", "1.14", "1.08", "1.02"]),
   ("compute_flashlight_value", ["0.0", "0.0", "0.97", "1.0", "0.775", "0.875", "0.7", "0.1", "200.0", "1.0", "200.0", "0.2", "200.0", "200.0", "1.0", "0.5", "2.0", "0.98", "0.0", "2.0", "2500.0"]),
   ("calculate_speed_deviation", ["0", "0.1", "0.0"]),
   ("calculate_deviation", ["0.0", "1.0", "2.32634787404", "2.0", "1.0", "4.0", "2.0", "2.0", "-0.5", "2.0", "2.0", "1.0", "3.0", "0.0", "1.0", "3.0", "2.0"]),
@@ -72,7 +72,7 @@ theorem taiko_calculator_literals_as_modelled : taikoCalcLiterals = [
 
 /-- numeric literals, per function and in source order, of the code `Model/PerfCalc.lean` transcribes -/
 theorem catch_calculator_literals_as_modelled : catchCalcLiterals = [
-  ("calculate", ["5.0", "0.0049", "1.0", "4.0", "2.0", "100_000.0", "0", "0.95", "0.3", "2500.0", "1.0", "2500", "2500.0", "0.475", "0", "0.8", "0.8", "1.0", "1.0", "9.0", "0.1", "9.0", "10.0", "0.1", "10.0", "8.0", "0.025", "8.0", "10.0", "1.05", "0.075", "10.0", "10.0", "1.01", "0.04", "11.0", "11.0", "1.35", "5.5", "1.0", "0.02", "0.9"]),
+  ("calculate", ["5.0", "0.0049", "1.0", "4.0", "2.0", "100_000.0", "0", "0.95", "0.3", "2500.0", "1.0", "2500", "2500.0", "0.475", "0.97_f64", "0", "0.8", "0.8", "1.0", "1.0", "9.0", "0.1", "9.0", "10.0", "0.1", "10.0", "8.0", "0.025", "8.0", "10.0", "1.05", "0.075", "10.0", "10.0", "1.01", "0.04", "11.0", "11.0", "1.35", "5.5", "1.0", "0.02", "0.9"]),
   ("combo_hits", [])
 ] := by decide
 
